@@ -17,7 +17,7 @@ CFG = dict(
          "violation; the many-block output is also compared with the Lean model. Non-trivial = at least one record was emitted; distinct by input line.",
     nontrivial=["records"],
     jobs=seeds(1, 3),
-    lean_files=["Trig", "Pipe", "PipeJudge", "C08", "C09", "Edge", "Emt", "EmtShift", "EmtScan", "EmtLoop", "EmtSim", "EmtRun", "EmtStep", "EmtSafe", "EdgeGlobal", "Auto"],
+    lean_files=["Trig", "Pipe", "PipeJudge", "C08", "C09", "Edge", "Emt", "EmtShift", "EmtScan", "EmtLoop", "EmtSim", "EmtRun", "EmtStep", "EmtSafe", "EdgeGlobal", "Auto", "EmtRecs", "PipeProj", "Pipe3"],
     trusted_base=_PIPE_TB,
     assumptions=["the kink-fit oracle moves a trigger by at least -1 sample (the real fit: -1, 0 or +1)",
                  "C08_no_oob additionally assumes shift <= +1"],
@@ -46,6 +46,8 @@ THEOREMS = [
     ("DastardV.Props.C08", "DastardV.C08.C08_no_oob"),
     ("DastardV.Props.C08", "DastardV.C08.C08_records_block_independent"),
     ("DastardV.Lemmas.EmtRecs", "DastardV.Trig.runFull_specs"),
+    ("DastardV.Props.C08", "DastardV.C08.C08_source_level"),
+    ("DastardV.Lemmas.PipeProj", "DastardV.Pipe.runOps_chan"),
     ("DastardV.Lemmas.EmtSafe", "DastardV.Trig.emtSafe_step"),
     ("DastardV.Lemmas.EmtSim", "DastardV.Trig.sim_loop"),
     ("DastardV.Lemmas.EmtStep", "DastardV.Trig.stepEmt_inv"),
